@@ -87,6 +87,22 @@ def run(rep):
     rep.run(build_net)
     rep.run(bfs)
     rep.run(netfold)
+    rep.run(stale_verdicts)
+
+
+def stale_verdicts(rep):
+    """a verdict of is_realizable depends on the markings and the net held by the object; is_borrow_realizable edits the markings in place
+    around a search and restores them: a verdict remembered on the object must not survive such an edit"""
+    from ..rules.memo import stale_instance_memo
+    fis = [f for q, f in rep.repo.module(RZ).funcs.items() if q.startswith("PathwayRealizability.")]
+    for f in fis:
+        rep.functions.add(f.key) if hasattr(rep, "functions") and isinstance(rep.functions, set) else None
+    hits = stale_instance_memo(fis)
+    for f, node, msg in hits:
+        rep.ob("O20.4", "R1", f, False, node, "a remembered verdict never outlives the state it was computed for: " + msg, node=node)
+    if not hits:
+        rep.ob("O20.4", "R1", rep.f(RZ, "PathwayRealizability.is_realizable"), True, f"{len(fis)} methods of PathwayRealizability",
+               "no method answers from a memo held on the object while another method changes the state that memo was computed from")
 
 
 # ------------------------------------------------------------------ O20.1 / O20.2
